@@ -65,4 +65,11 @@ CLAIMED.update({
   "technique": "symbolic execution (unrolled for concrete bin factor, loop summary for azimuthal rings) with callee contracts; Sigma rules (linearity, convexity, witness); z3",
  },
 })
+CLAIMED.update({
+ "C15": {
+  "text": "Unbounded proofs (all image sizes and stack depths) on the real centre_of_gravity and quadCell: a single bright pixel at (y,x) has centroid (x,y) on the 2-d and the stack path (Sigma delta rule); a frame inside a stack gives exactly what the frame alone gives, and multiplying the image by a positive constant changes nothing, both with threshold 0 and with thresholds (Fubini and linearity rules for the sums, witness-chain reasoning for max over the last two axes vs nested max); quad-cell x / y signals change sign under left-right / up-down mirroring and a stack item equals the single frame. brightest_pixel, shift equivariance and the correlation centroid are bounded native stand-ins (labelled bounded).",
+  "note": BASE + "max is an opaque term with its defining bounds and an attainment witness; numpy.sort (brightest_pixel) and FFT correlation are outside the encoding (native bounded checks only).",
+  "technique": "symbolic execution + Sigma calculus (delta, Fubini, linearity) and extreme-term witness chains; z3",
+ },
+})
 NOT_APPLICABLE = {}
